@@ -3,7 +3,9 @@ Compact forms of the generated `MaderRare` leaves (`rarefaction.rare` for one ce
 
 The traced expressions have every local of `rare` inlined; the definitions below are those
 locals (same names as in the Python), and the `*_eq` theorems state each returned leaf field in
-terms of them.  They are proved by `rfl`, i.e. they are the generated expressions, folded.
+terms of them.  They are proved by unfolding both sides and ring normalisation inside and outside the
+real powers (`epv_deton_mader_fold`, see EPV/Lemmas/Bridge/DetonTactics.lean), i.e. they are the generated
+expressions, folded — however the Python names, hoists, associates and commutes its locals.
 
     y(X)  = aa X + bb                      (c / c_cj along the fan, X = xdet)
     fan:        u = dd X + ee,  c = c_cj y(X),
@@ -14,6 +16,7 @@ terms of them.  They are proved by `rfl`, i.e. they are the generated expression
 -/
 import EPV.Gen.MaderRare
 import EPV.Tactics
+import EPV.Lemmas.Bridge.DetonTactics
 
 set_option linter.all false
 
@@ -44,28 +47,37 @@ def Y (X : ℝ) : ℝ := (aa p time * X) + bb p
 /-- plateau value of c / c_cj -/
 def Z : ℝ := 1 + ((p.gam - 1) * (p.u_piston - ucj p)) / (2 * ccj p)
 
+/-- a generated leaf / condition is the documented expression in the locals above -/
+macro "epv_deton_mader_fold" : tactic =>
+  `(tactic| (simp only [epv_leaf, epv_cond, ccj, ucj, rho0, rhocj, aa, bb, bexp, dexp, dd, ee, xdet, x1, xp, Y, Z]
+             epv_deton_nf_eq))
+
 theorem fan_velocity_eq : MaderRare.L0.velocity p xlab time
-    = dd p time * (x1 p xlab time + ((1 : ℝ) / 2) * p.dx) + ee p := rfl
+    = dd p time * (x1 p xlab time + ((1 : ℝ) / 2) * p.dx) + ee p := by epv_deton_mader_fold
 theorem fan_sound_speed_eq : MaderRare.L0.sound_speed p xlab time
-    = ccj p * Y p time (x1 p xlab time + ((1 : ℝ) / 2) * p.dx) := rfl
+    = ccj p * Y p time (x1 p xlab time + ((1 : ℝ) / 2) * p.dx) := by epv_deton_mader_fold
 theorem fan_pressure_eq : MaderRare.L0.pressure p xlab time
     = (p.p_cj * (Y p time (x1 p xlab time + p.dx) ^ (bexp p + 1) - Y p time (x1 p xlab time) ^ (bexp p + 1)))
-      / ((p.dx * aa p time) * (bexp p + 1)) := rfl
+      / ((p.dx * aa p time) * (bexp p + 1)) := by epv_deton_mader_fold
 theorem fan_density_eq : MaderRare.L0.density p xlab time
     = (rhocj p * (Y p time (x1 p xlab time + p.dx) ^ (dexp p + 1) - Y p time (x1 p xlab time) ^ (dexp p + 1)))
-      / ((p.dx * aa p time) * (dexp p + 1)) := rfl
+      / ((p.dx * aa p time) * (dexp p + 1)) := by epv_deton_mader_fold
 
 /-- half width of the fan part of the transition cell, `h = (x1 + dx - xp) / 2` -/
 def hh : ℝ := ((x1 p xlab time + p.dx) - xp p time) / 2
 
+macro "epv_deton_mader_fold_h" : tactic =>
+  `(tactic| (simp only [epv_leaf, epv_cond, hh, ccj, ucj, rho0, rhocj, aa, bb, bexp, dexp, dd, ee, xdet, x1, xp, Y, Z]
+             epv_deton_nf_eq))
+
 /-- transition cell: `u = u_r + (u_fan(x1 + h) - u_r) * 2 h / dx` -/
 theorem trans_velocity_eq : MaderRare.L1.velocity p xlab time
-    = p.u_piston + ((((dd p time * (x1 p xlab time + hh p xlab time) + ee p) - p.u_piston) * 2) * hh p xlab time) / p.dx := rfl
+    = p.u_piston + ((((dd p time * (x1 p xlab time + hh p xlab time) + ee p) - p.u_piston) * 2) * hh p xlab time) / p.dx := by epv_deton_mader_fold_h
 theorem trans_sound_speed_eq : MaderRare.L1.sound_speed p xlab time
     = ccj p * (1 + ((p.gam - 1) * ((dd p time * (x1 p xlab time + hh p xlab time) + ee p) - ucj p)) / (2 * ccj p))
       + (((ccj p * Y p time (x1 p xlab time + hh p xlab time)
            - ccj p * (1 + ((p.gam - 1) * ((dd p time * (x1 p xlab time + hh p xlab time) + ee p) - ucj p)) / (2 * ccj p))) * 2)
-          * hh p xlab time) / p.dx := rfl
+          * hh p xlab time) / p.dx := by epv_deton_mader_fold_h
 
 /-- width of the fan part of the transition cell, `dxp = x2 - xp` -/
 def dxp : ℝ := (x1 p xlab time + p.dx) - xp p time
@@ -82,25 +94,33 @@ def pr : ℝ := p.p_cj * zr p xlab time ^ bexp p
 def cr : ℝ := ccj p * zr p xlab time
 def rhor : ℝ := rhocj p * (pf p xlab time / p.p_cj) ^ ((1 : ℝ) / p.gam)
 
-theorem trans_velocity_eq' : MaderRare.L1.velocity p xlab time
-    = p.u_piston + (((uf p xlab time - p.u_piston) * 2) * hh p xlab time) / p.dx := rfl
-theorem trans_pressure_eq : MaderRare.L1.pressure p xlab time
-    = pr p xlab time + (((pf p xlab time - pr p xlab time) * 2) * hh p xlab time) / p.dx := rfl
-theorem trans_sound_speed_eq' : MaderRare.L1.sound_speed p xlab time
-    = cr p xlab time + (((cf p xlab time - cr p xlab time) * 2) * hh p xlab time) / p.dx := rfl
-theorem trans_density_eq : MaderRare.L1.density p xlab time
-    = rf p xlab time + (((rf p xlab time - rhor p xlab time) * 2) * hh p xlab time) / p.dx := rfl
+macro "epv_deton_mader_fold_t" : tactic =>
+  `(tactic| (simp only [epv_leaf, epv_cond, rhor, cr, pr, zr, rf, cf, pf, uf, dxp, hh, ccj, ucj, rho0, rhocj, aa, bb, bexp,
+               dexp, dd, ee, xdet, x1, xp, Y, Z]
+             epv_deton_nf_eq))
 
-theorem plateau_velocity_eq : MaderRare.L4.velocity p xlab time = p.u_piston := rfl
-theorem plateau_sound_speed_eq : MaderRare.L4.sound_speed p xlab time = ccj p * Z p := rfl
-theorem plateau_pressure_eq : MaderRare.L4.pressure p xlab time = p.p_cj * Z p ^ bexp p := rfl
+theorem trans_velocity_eq' : MaderRare.L1.velocity p xlab time
+    = p.u_piston + (((uf p xlab time - p.u_piston) * 2) * hh p xlab time) / p.dx := by epv_deton_mader_fold_t
+theorem trans_pressure_eq : MaderRare.L1.pressure p xlab time
+    = pr p xlab time + (((pf p xlab time - pr p xlab time) * 2) * hh p xlab time) / p.dx := by epv_deton_mader_fold_t
+theorem trans_sound_speed_eq' : MaderRare.L1.sound_speed p xlab time
+    = cr p xlab time + (((cf p xlab time - cr p xlab time) * 2) * hh p xlab time) / p.dx := by epv_deton_mader_fold_t
+theorem trans_density_eq : MaderRare.L1.density p xlab time
+    = rf p xlab time + (((rf p xlab time - rhor p xlab time) * 2) * hh p xlab time) / p.dx := by epv_deton_mader_fold_t
+
+theorem plateau_velocity_eq : MaderRare.L4.velocity p xlab time = p.u_piston := by epv_deton_mader_fold_t
+theorem plateau_sound_speed_eq : MaderRare.L4.sound_speed p xlab time = ccj p * Z p := by epv_deton_mader_fold_t
+theorem plateau_pressure_eq : MaderRare.L4.pressure p xlab time = p.p_cj * Z p ^ bexp p := by epv_deton_mader_fold_t
 theorem plateau_density_eq : MaderRare.L4.density p xlab time
-    = rhocj p * ((p.p_cj * Z p ^ bexp p) / p.p_cj) ^ ((1 : ℝ) / p.gam) := rfl
+    = rhocj p * ((p.p_cj * Z p ^ bexp p) / p.p_cj) ^ ((1 : ℝ) / p.gam) := by epv_deton_mader_fold_t
 
 /-- path conditions in terms of the locals: c0 = `dist > tol`, c1 = `xdet > xp`, c2 = `dist ≤ tol` -/
-theorem c0_eq : MaderRare.c0 p xlab time ↔ ((1 : ℝ) / 10) * p.dx < |xdet p xlab time - xp p time| := Iff.rfl
-theorem c1_eq : MaderRare.c1 p xlab time ↔ xp p time < xdet p xlab time := Iff.rfl
-theorem c2_eq : MaderRare.c2 p xlab time ↔ |xdet p xlab time - xp p time| ≤ ((1 : ℝ) / 10) * p.dx := Iff.rfl
+theorem c0_eq : MaderRare.c0 p xlab time ↔ ((1 : ℝ) / 10) * p.dx < |xdet p xlab time - xp p time| := by
+  refine Iff.of_eq ?_; epv_deton_mader_fold_t
+theorem c1_eq : MaderRare.c1 p xlab time ↔ xp p time < xdet p xlab time := by
+  refine Iff.of_eq ?_; epv_deton_mader_fold_t
+theorem c2_eq : MaderRare.c2 p xlab time ↔ |xdet p xlab time - xp p time| ≤ ((1 : ℝ) / 10) * p.dx := by
+  refine Iff.of_eq ?_; epv_deton_mader_fold_t
 
 end
 
